@@ -9,7 +9,7 @@
 From Coq Require Import List ZArith Bool.
 From SVC Require Import Base.AMap Base.Res Model.Types Model.Handlers Model.EndBlock Model.Step
   Proofs.Inv Proofs.CtxOps Proofs.ReachRun Proofs.StepSpecs_ctx Proofs.C10Proofs Proofs.TraceCadence
-  Proofs.GapC09 Proofs.GapC10.
+  Proofs.GapC09 Proofs.GapC06 Proofs.GapC10.
 Import ListNotations.
 Open Scope Z_scope.
 
@@ -330,6 +330,44 @@ Theorem C10_first_batch_trace : forall cfg s0 o s1 c msgs dt,
           end).
 Proof. exact GapC10.first_batch_trace. Qed.
 Print Assumptions C10_first_batch_trace.
+
+(* the first batch, DECIDED: same situation; the context is still due, with the same record,
+   after the expiry phase of that EndBlock, and if its consumer has no other context due in this
+   block the outcome is the one computed by [GapC06.new_outcome] on the post-expiry state sx
+   (C06_end_block_outcome): Paused-for-funds exactly when not super mode and the consumer's
+   balance in sx is below the total price of a sufficient eligible set; otherwise issued (one
+   request per eligible provider, ids (c, 1, H, k), expiry H + timeout, charge = sum of prices)
+   or skipped; nothing if the consumer paused / killed it within the block *)
+Theorem C10_first_batch_decided : forall cfg s0 o s1 c msgs dt,
+  wf_cfg cfg -> Reach cfg s0 -> wf_op s0 o -> creates o c -> handle cfg s0 o = Ok s1 ->
+  wf_run cfg s1 msgs -> Forall (fun m => forall d, m <> OEndBlock d) msgs ->
+  0 <= dt -> height s0 < HEIGHT_BOUND ->
+  let s2 := run cfg s1 msgs in
+  let sx := fold_left (expire_one cfg) (due (expq s2) (height s2)) s2 in
+  let s3 := end_block cfg s2 dt in
+  exists rc2, get c (ctxs s2) = Some rc2 /\ c_counter rc2 = 0 /\ height s2 = height s0
+    /\ get c (ctxs sx) = Some rc2 /\ In (height s2, c) (newq sx)
+    /\ ((forall c' rc', In (height s2, c') (newq sx) -> c' <> c -> get c' (ctxs sx) = Some rc' ->
+                        c_cons rc' <> c_cons rc2) ->
+        let E := filter_providers sx rc2 (c_provs rc2) in
+        let charge := if c_super rc2 then 0 else sum_prices E in
+        let kept := (forall r, rid_ctx r = c -> get r (reqs s3) = get r (reqs sx))
+                    /\ bal s3 (User (c_cons rc2)) = bal sx (User (c_cons rc2)) in
+        match new_outcome sx rc2 with
+        | ONotRunning => get c (ctxs s3) = Some rc2 /\ kept
+        | ORemoved => get c (ctxs s3) = None /\ kept
+        | OSkipped => get c (ctxs s3) = Some (bump rc2 0) /\ kept
+        | OPausedFunds => get c (ctxs s3) = Some (paused_ctx rc2) /\ kept
+        | OIssued =>
+            get c (ctxs s3) = Some (bump rc2 (len E))
+            /\ (forall k p price, nth_error E k = Some (p, price) ->
+                  get (c, 1, height s0, Z.of_nat k) (reqs s3)
+                  = Some (mkReq p (if c_super rc2 then 0 else price) (height s0 + c_timeout rc2) true))
+            /\ bal s3 (User (c_cons rc2)) = bal sx (User (c_cons rc2)) - charge
+            /\ 0 <= charge <= bal sx (User (c_cons rc2))
+        end).
+Proof. exact GapC10.first_batch_decided. Qed.
+Print Assumptions C10_first_batch_decided.
 
 (* every batch start in the log of a reachable state, for a context that still exists: its index
    is between 1 and the counter; at most the CURRENT total for a repeated context with a positive
